@@ -49,7 +49,7 @@ pub fn judge(tree: &E, choices: &[u16]) -> Verdict {
     if &sib != tree {
         if let Some(st) = render::canonical(&sib) {
             match parse_pair(&st) {
-                Ok(Ok((_, t))) if t != sib => return Verdict::Fail(format!("after parsing {var:?}, the input {st:?} gives {t:?} instead of {sib:?}")),
+                Ok(Ok((_, t))) if t != options_as_true(&sib) => return Verdict::Fail(format!("after parsing {var:?}, the input {st:?} gives {t:?} instead of {sib:?}")),
                 Err(p) => return Verdict::Fail(format!("parse panicked on {st:?}: {p}")),
                 _ => {}
             }
@@ -67,6 +67,18 @@ pub fn judge(tree: &E, choices: &[u16]) -> Verdict {
         "differs in 1 dimension"
     };
     Verdict::Pass { nt, class }
+}
+
+fn options_as_true(e: &E) -> E {
+    match e {
+        E::G(_) => E::T(Tst::True),
+        E::Not(a) => E::not(options_as_true(a)),
+        E::Prec(a) => E::prec(options_as_true(a)),
+        E::And(a, b) => E::and(options_as_true(a), options_as_true(b)),
+        E::Or(a, b) => E::or(options_as_true(a), options_as_true(b)),
+        E::List(a, b) => E::list(options_as_true(a), options_as_true(b)),
+        o => o.clone(),
+    }
 }
 
 /// every string argument that contains a blank gets that blank run changed (space <-> two spaces, tab)
@@ -163,7 +175,16 @@ pub fn run(ctx: &Ctx) -> Report {
     let shards = 16;
     let rnd = run_shards(shards, |shard| {
         let mut st = Stats::new();
-        let strat = (gen::expr_over(gen::text_leaf(), 6, 24, true), gen::choice_stream(80));
+        // scan-wide options may also stand inside the expression (never as its first word: that
+        // would make them part of the leading run); their spelling variants must agree as well
+        let leaf = prop_oneof![14 => gen::text_leaf(), 1 => Just(E::G(Glob::Depth)), 1 => gen::count_u32().prop_map(|n| E::G(Glob::Threads(n)))];
+        let strat = (gen::expr_over(leaf.boxed(), 6, 24, true), gen::choice_stream(80)).prop_map(|(t, c)| {
+            if matches!(t.leaves().first(), Some(E::G(_))) {
+                (E::and(E::T(Tst::Name("first".into())), t), c)
+            } else {
+                (t, c)
+            }
+        });
         run_prop(&mut st, ctx.seed, "C06", shard as u64, cases / shards as u32, &strat, |(t, c)| judge(t, c), |(t, c)| case_json(t, c));
         st
     });
